@@ -828,6 +828,63 @@ F_C17_step(cfg, pre, post) ==
             \cup Chk("C17.history-timestamps-monotone", post.trk.ht >= pre.trk.ht)
 
 ----------------------------------------------------------------------------
+(* C18 deadlock detection.  dg = set of edges <<n1, s1, n2, s2>> of the detector's digraph.     *)
+
+\* genuine deadlock: greatest set D of nodes all of whose servers hold customers blocked towards D
+TrueDeadlock(cfg, S) ==
+    LET allBlocked(n) == S.nodes[n].c < INF /\ S.nodes[n].srv # <<>>
+                         /\ \A a \in DOMAIN S.nodes[n].srv :
+                               LET cu == S.nodes[n].srv[a].cust
+                               IN cu # 0 /\ IsLive(S, cu) /\ CuOf(S, cu).blk
+        D0 == {n \in 1..NN(S) : allBlocked(n)}
+        RECURSIVE Shrink(_)
+        Shrink(D) ==
+            LET D2 == {n \in D : \A a \in DOMAIN S.nodes[n].srv : CuOf(S, S.nodes[n].srv[a].cust).dest \in D}
+            IN IF D2 = D THEN D ELSE Shrink(D2)
+    IN Shrink(D0) # {}
+
+KnotIn(E) ==
+    LET V == {<<e[1], e[2]>> : e \in E} \cup {<<e[3], e[4]>> : e \in E}
+        Succ(v) == {<<e[3], e[4]>> : e \in {f \in E : f[1] = v[1] /\ f[2] = v[2]}}
+        RECURSIVE ReachFrom(_, _)
+        ReachFrom(front, seen) ==
+            LET nxt == UNION {Succ(v) : v \in front} \ seen
+            IN IF nxt = {} THEN seen ELSE ReachFrom(nxt, seen \cup nxt)
+        Desc(v) == ReachFrom({v}, {})
+        SCC(v) == {v} \cup {u \in Desc(v) : v \in Desc(u)}
+    IN \E v \in V :
+          LET c == SCC(v)
+          IN IF Cardinality(c) = 1 THEN Succ(v) = {v}
+             ELSE \E u \in c : Desc(u) \ {u} \subseteq c
+
+Dom_C18(cfg) == cfg.detector = "digraph" /\ ~HasPriorityPreempt(cfg)
+                /\ \A n \in DOMAIN cfg.nodes : cfg.nodes[n].kind = "std" /\ cfg.nodes[n].c < INF
+
+F_C18_inv(cfg, S, dg) ==
+    IF ~Dom_C18(cfg) THEN {}
+    ELSE Chk("C18.knot-iff-genuine-deadlock", KnotIn(dg) <=> TrueDeadlock(cfg, S))
+
+F_C18_step(cfg, pre, post) ==
+    IF ~Dom_C18(cfg) \/ cfg.stop # "deadlock" THEN {}
+    ELSE Chk("C18.no-event-after-deadlock", ~TrueDeadlock(cfg, pre))
+         \cup Chk("C18.detector-answer", \A a \in IdxOf(post, "ddl") :
+                  (post.steps[a].x = 1) <=> TrueDeadlock(cfg, post))
+         \cup Chk("C18.checked-after-every-new-blockage",
+                  (IdxOf(post, "block") # {}) => IdxOf(post, "ddl") # {})
+         \cup Chk("C18.deadlock-only-arises-by-a-blockage",
+                  TrueDeadlock(cfg, post) /\ ~TrueDeadlock(cfg, pre) => IdxOf(post, "block") # {})
+
+\* seen = first-visit times <<tracker state, date>> maintained by the observer; ttd = logged times_to_deadlock
+F_C18_final(cfg, last, outcome, seen, ttd) ==
+    IF ~Dom_C18(cfg) \/ cfg.stop # "deadlock" THEN {}
+    ELSE Chk("C18.stops-only-in-deadlock", outcome = "returned" => TrueDeadlock(cfg, last))
+         \cup Chk("C18.does-not-run-past-deadlock", outcome \in {"truncated", "exhausted"} => ~TrueDeadlock(cfg, last))
+         \cup Chk("C18.times-to-deadlock", outcome = "returned" =>
+                 Len(ttd) = Len(seen)
+                 /\ \A a \in DOMAIN seen : \E b \in DOMAIN ttd :
+                        ttd[b].s = seen[a][1] /\ ttd[b].t = last.now - seen[a][2] /\ ttd[b].t >= 0)
+
+----------------------------------------------------------------------------
 (* Aggregation *)
 
 StepFails(cfg, pre, post, ob) ==
@@ -836,11 +893,11 @@ StepFails(cfg, pre, post, ob) ==
     \cup F_C05_step(cfg, pre, post) \cup F_C06_step(cfg, pre, post) \cup F_C07_step(cfg, pre, post)
     \cup F_C08_step(cfg, pre, post) \cup F_C09_step(cfg, pre, post, ob.rt) \cup F_C10_step(cfg, pre, post)
     \cup F_C11_step(cfg, pre, post) \cup F_C13_step(cfg, pre, post) \cup F_C14_step(cfg, pre, post)
-    \cup F_C17_step(cfg, pre, post)
+    \cup F_C17_step(cfg, pre, post) \cup F_C18_step(cfg, pre, post)
 
 \* ob = observer state AFTER the event that produced S
 InvFails(cfg, S, ob) ==
-    F_C17_inv(cfg, S, ob.gb) \cup
+    F_C17_inv(cfg, S, ob.gb) \cup F_C18_inv(cfg, S, ob.dg) \cup
     F_C01_inv(cfg, S) \cup F_C03_inv(cfg, S) \cup F_C04_inv(cfg, S) \cup F_C12_inv(cfg, S) \cup F_C05_inv(cfg, S) \cup F_C06_inv(cfg, S)
     \cup F_C07_inv(cfg, S) \cup F_C09_inv(cfg, S) \cup F_C10_inv(cfg, S) \cup F_C11_inv(cfg, S)
     \cup F_C13_inv(cfg, S)
@@ -862,7 +919,10 @@ RtAfter(cfg, post, rt) ==
         rt[k][n] + Cardinality({a \in IdxOf(post, "route") : post.steps[a].x = k /\ post.steps[a].n = n
                                                                /\ post.steps[a].f # 2})]]
 
-ObsAfter(cfg, post, ob) == [rt |-> RtAfter(cfg, post, ob.rt), gb |-> GbFold(post.steps, 1, ob.gb)]
+ObsAfter(cfg, post, ob) ==
+    LET st == <<post.trk.a, post.trk.b, post.trk.m>>
+    IN [rt |-> RtAfter(cfg, post, ob.rt), gb |-> GbFold(post.steps, 1, ob.gb),
+        seen |-> IF \E a \in DOMAIN ob.seen : ob.seen[a][1] = st THEN ob.seen ELSE Append(ob.seen, <<st, post.now>>)]
 
 \* Known findings (DESIGN.md section 7): trigger predicates over one observed step.  A trace is tainted
 \* by finding F from the first step whose trigger holds; see known_findings.json for what each means.
